@@ -36,6 +36,12 @@ fn validate_options(opts: &Options) -> FilterRepoResult<()> {
         }
     }
 
+    if opts.no_data && opts.replace_text_file.is_some() {
+        return Err(FilterRepoError::invalid_options(
+            "--replace-text needs blob contents and cannot be combined with --no-data",
+        ));
+    }
+
     const MAX_PATH_BYTES: usize = 4096;
     for entry in &opts.paths {
         if entry.len() > MAX_PATH_BYTES {
